@@ -14,7 +14,7 @@ LEVEL_TEXT = (
     "every report producer is classified by label coverage and matched against what the per-file display filter accepts;"
     " the error path of CFG generation keeps its report; every way through the file-queueing loop queues, recurses or reports;"
     " desugaring drops are reported; definition tables do not overwrite silently; exit status and summary evaluated over the displayed count;"
-    " on MIR: no report-carrying value is left untouched, a single report is moved on along every path; the version gate is evaluated over all orderings; parse_files evaluated on projects of up to three files (every warning and error arrives once, `multiple main` for two mains wherever defined, archive errors and library reports arrive); a locally filled report collection is handed on along every path."
+    " on MIR: no report-carrying value is left untouched, a single report is moved on along every path; the version gate is evaluated over all orderings; parse_files evaluated on projects of up to three files (every warning and error arrives once, `multiple main` for two mains wherever defined, archive errors and library reports arrive); a locally filled report collection is handed on along every path; add_files evaluated on one path of each kind (with every extra yes/no question it asks about a path as a further dimension); an error about an anonymous component call is located at the call."
 )
 NOT_DECIDED = "that a displayed error report describes the failure; that every definition of a parsed file is reached by the analysis loop beyond the user-input flag."
 ENGINE = "mirfacts+astq"
